@@ -110,7 +110,7 @@ def c06_sessions(V, tier):
 
     PAD = "\n" + "# padding: a large generated module\n" * 9000       # ~ 330 KB of comments after the last statement
 
-    def run_one(root, script, final, warm=False, burst=False, reopen=False, reverse=False):
+    def run_one(root, script, final, warm=False, burst=False, reopen=False, reverse=False, prologue=False):
         """script: list of (slot, version); final: slot -> version; warm: every handler is asked about every opened document
         after EVERY notification (answers discarded), so that whatever a handler keeps between requests is populated"""
         uni = H.mk_universe(root)
@@ -119,6 +119,17 @@ def c06_sessions(V, tier):
         srv = lsp.Server(timeout=40)
         try:
             srv.initialize(root + "/R")
+            if reopen and prologue:
+                # an EARLIER editing session on every document of the script: opened with what is on disk, edited three times
+                # (document versions 2..4), the last edit restoring the disk text, then closed.  The script then re-opens the
+                # documents with the version counter restarted, as clients do.
+                for slot in sorted({sl for sl, _ in script}):
+                    t0 = vt.text(slot, 1)
+                    srv.did_open(uni.paths[slot], t0, version=1)
+                    srv.did_change(uni.paths[slot], t0 + "# note\n", version=2)
+                    srv.did_change(uni.paths[slot], t0 + "# another note\n", version=3)
+                    srv.did_change(uni.paths[slot], t0, version=4)
+                    srv.did_close(uni.paths[slot])
             ver = {}
             now = {}
             last_of = {}
@@ -168,7 +179,8 @@ def c06_sessions(V, tier):
         for f, v in hist:
             final[f] = v
         try:
-            long_lived = run_one(os.path.join(base, "L%d" % n), hist, final, warm=(n % 4 in (0, 2)), burst=(n % 4 == 1), reopen=(n % 4 in (2, 3)))
+            long_lived = run_one(os.path.join(base, "L%d" % n), hist, final, warm=(n % 4 in (0, 2)), burst=(n % 4 == 1), reopen=(n % 4 in (2, 3)),
+                                 prologue=(n % 8 in (2, 7)))
             fresh = run_one(os.path.join(base, "F%d" % n), [(f, final[f]) for f in case["okOrder"] if f in final], final, reverse=True)
         except (lsp.ServerDied, lsp.Timeout) as e:
             return {"error": str(e)}
@@ -221,7 +233,7 @@ def c07_sessions(V, tier):
     base = os.path.join(C.BUILD, "ws", "lsphist7-%d" % os.getpid())
     shutil.rmtree(base, ignore_errors=True)
 
-    def run_one(root, hist, cold):
+    def run_one(root, hist, cold, prologue=False):
         uni = H.mk_universe(root)
         vt = H.Versions(uni, table)
         disk_r = {s: R.render_checked(uni, s, m) for s, m in disk.items()}
@@ -230,6 +242,15 @@ def c07_sessions(V, tier):
         try:
             srv.initialize(root + "/R")
             cur = dict(disk_r)
+            if prologue and not cold:
+                # an earlier editing session on every document the history edits (see c06_sessions): net effect nothing
+                for f in sorted({ev["f"] for ev in hist if ev["t"] == "edit"}):
+                    t0 = disk_r[f].text if f in disk_r else ""
+                    srv.did_open(uni.paths[f], t0, version=1)
+                    srv.did_change(uni.paths[f], t0 + "# note\n", version=2)
+                    srv.did_change(uni.paths[f], t0 + "# another note\n", version=3)
+                    srv.did_change(uni.paths[f], t0, version=4)
+                    srv.did_close(uni.paths[f])
             opened, ver = set(), {}
             ans = None
             for i, ev in enumerate(hist):
@@ -278,7 +299,7 @@ def c07_sessions(V, tier):
     def session(job):
         n, case = job
         try:
-            return {"warm": run_one(os.path.join(base, "W%d" % n), case["hist"], False),
+            return {"warm": run_one(os.path.join(base, "W%d" % n), case["hist"], False, prologue=(n % 2 == 1)),
                     "cold": run_one(os.path.join(base, "K%d" % n), case["hist"], True)}
         except (lsp.ServerDied, lsp.Timeout) as e:
             return {"error": str(e)}
